@@ -140,6 +140,60 @@ def router_variants(ck):
     return out
 
 
+def session_sweep(ck, name, cfg):
+    """component observations of hosts, routers and firewalls that include users, on the real state of the built scenario with
+    0..9 remote sessions and a local user written into it: whatever the session manager holds, the observation fits its space"""
+    import copy
+    try:
+        env = world.make_env(cfg)
+    except Exception:
+        return
+    env.reset()
+    state = env.game.get_sim_state()
+    found = []
+
+    def visit(o):
+        if type(o).__name__ in ("HostObservation", "RouterObservation", "FirewallObservation") and getattr(o, "include_users", False):
+            found.append(o)
+        for v in list(getattr(o, "__dict__", {}).values()):
+            if isinstance(v, dict):
+                v = list(v.values())
+            if isinstance(v, (list, tuple)):
+                for x in v:
+                    if type(x).__module__.startswith("primaite.game.agent.observations"):
+                        visit(x)
+            elif type(v).__module__.startswith("primaite.game.agent.observations"):
+                visit(v)
+    for ag in env.game.agents.values():
+        visit(ag.observation_manager.obs)
+    for o in found:
+        where = getattr(o, "where", None)
+        if not where:
+            continue
+        for k in (0, 1, 3, 4, 9):
+            for local in (None, "admin"):
+                st = copy.deepcopy(state)
+                node = st
+                try:
+                    for key in where:
+                        node = node[key]
+                except (KeyError, TypeError):
+                    break
+                usm = node.setdefault("services", {}).setdefault("user-session-manager", {})
+                usm["active_remote_sessions"] = ["s%d" % i for i in range(k)]
+                usm["current_local_user"] = local
+                ob = o.observe(st)
+                ck.evaluations += 1
+                ck.case(canon=(name, type(o).__name__, tuple(where), k, local), nontrivial=k > 3)
+                if not o.space.contains(ob):
+                    ck.violation("component-outside-space:%s:sessions" % type(o).__name__,
+                                 "%s at %s with %d remote sessions and local user %r observes %s, outside its space at %s"
+                                 % (type(o).__name__, where, k, local, ob.get("users"), obswalk.first_outside(o.space, ob)),
+                                 {"scenario": name, "where": list(where), "remote_sessions": k, "local_user": local})
+                    return
+    env.close()
+
+
 def scenarios(ck):
     out = [("family/%d" % (ck.seed + k), family.generate(ck.seed + k)) for k in range(ck.n(4, 14))]
     out += router_variants(ck)
@@ -175,6 +229,23 @@ def run(ck):
                       not mism, "" if not mism else "first mismatch: case %d model=%s impl=%s input=%s" % (mism[0][0], mism[0][1], coq_in[mism[0][0]][1], coq_in[mism[0][0]][0]))
     for name, cfg in scenarios(ck):
         obswalk.walk(ck, name, cfg, steps=ck.n(25, 80), membership=True, truth=False, episodes=2)
+    # users of hosts, routers and firewalls: scenarios that have each kind of device, with user observation switched on
+    import copy
+    need = {"router", "firewall"}
+    for k in range(40):
+        cfg = family.generate(ck.seed + 2000 + k)
+        kinds = {n["type"] for n in cfg["simulation"]["network"]["nodes"]} & need
+        if not kinds:
+            continue
+        need -= kinds
+        c = copy.deepcopy(cfg)
+        for a in c["agents"]:
+            for comp in (a.get("observation_space") or {}).get("options", {}).get("components", []):
+                if comp.get("type") == "nodes":
+                    comp["options"]["include_users"] = True
+        session_sweep(ck, "family/%d + users observed" % (ck.seed + 2000 + k), c)
+        if not need:
+            break
 
 
 def replay(ck, path):
